@@ -1,7 +1,7 @@
 use crate::context::{Surroundings, ElementMap, TransformerContext};
 use crate::element::SvgElement;
 use crate::errors::{Result, SvgdxError};
-use crate::events::{tagify_events, InputList, OutputEvent, OutputList, Tag};
+use crate::events::{tagify_events, InputEvent, InputList, OutputEvent, OutputList, Tag};
 use crate::expression::{eval_attr, eval_condition};
 use crate::loop_el::{ForElement, LoopElement};
 use crate::position::{BoundingBox, BoundingBoxBuilder, LocSpec};
@@ -273,23 +273,38 @@ impl EventGen for Container {
                     el.event_range = Some((start, start)); // emulate an Empty element
                 }
                 // Character data directly inside the shape is its text, as it is without
-                // the child elements (white space alone is layout, and stays where it is).
+                // the child elements. White space alone is layout and stays where it is -
+                // unless it stands between two pieces of the text.
+                let top_level: Vec<bool> = {
+                    let mut depth = 0;
+                    inner_events
+                        .iter()
+                        .map(|e| {
+                            let at_top = depth == 0;
+                            depth += e.depth_change();
+                            at_top
+                        })
+                        .collect()
+                };
+                let piece = |idx: usize, e: &InputEvent| match top_level[idx] {
+                    true => e.cdata_string().or(e.text_string()),
+                    false => None,
+                };
+                let is_text = |idx: usize, e: &InputEvent| {
+                    e.cdata_string().is_some() && top_level[idx]
+                        || piece(idx, e).is_some_and(|t| !is_xml_space(&t))
+                };
+                let events: Vec<&InputEvent> = inner_events.iter().collect();
+                let first_text = events.iter().enumerate().position(|(i, e)| is_text(i, e));
+                let last_text = events.iter().enumerate().rposition(|(i, e)| is_text(i, e));
                 let mut text = String::new();
                 let mut children = InputList::new();
-                let mut depth = 0;
-                for e in inner_events.iter() {
-                    let piece = match depth {
-                        0 => e
-                            .cdata_string()
-                            .or(e.text_string().filter(|t| !is_xml_space(t))),
-                        _ => None,
-                    };
-                    match piece {
-                        Some(piece) => text.push_str(&piece),
-                        None => {
-                            depth += e.depth_change();
-                            children.push(e.clone());
-                        }
+                for (idx, e) in events.iter().enumerate() {
+                    let between = first_text.is_some_and(|f| f < idx)
+                        && last_text.is_some_and(|l| idx < l);
+                    match piece(idx, e) {
+                        Some(piece) if is_text(idx, e) || between => text.push_str(&piece),
+                        _ => children.push((*e).clone()),
                     }
                 }
                 if !is_xml_space(&text) {
